@@ -90,6 +90,9 @@ def mkDecoder (vocab : List (Id × Bytes)) (specials : List SpecialDef) (cfg : C
 
 def f32ToFloat (bits : UInt32) : Float := (Float32.ofBits bits).toFloat
 
+/-- The cost type of the real code: an `f64` score with the `broken` flag. -/
+abbrev Score := Tainted Float
+
 instance : Cost Float where
   zero := 0.0
   big := Float.ofNat Generated.UNIGRAM_SENTINEL
@@ -97,7 +100,7 @@ instance : Cost Float where
   le := fun a b => a ≤ b
 
 /-- The encoder part of `Kitoken::new`. -/
-def mkEncoder (d : Definition) : Except InitError (EncoderModel Float) :=
+def mkEncoder (d : Definition) : Except InitError (EncoderModel Score) :=
   let unknown := unknownOf d.specials
   match d.model with
   | .bytePair vocab chars =>
@@ -112,8 +115,8 @@ def mkEncoder (d : Definition) : Except InitError (EncoderModel Float) :=
   | .unigram vocab scores =>
     if vocab.length != scores.length then .error .invalidScores
     else
-      let vm : HashMap Bytes (Id × Float) :=
-        (vocab.zip scores).foldl (fun m ((i, b), s) => m.insert b (i, f32ToFloat s)) {}
+      let vm : HashMap Bytes (Id × Score) :=
+        (vocab.zip scores).foldl (fun m ((i, b), s) => m.insert b (i, ⟨false, f32ToFloat s⟩)) {}
       if vocab.length != vm.size then .error .invalidEncoder
       else
         let keys := vm.keys
@@ -140,7 +143,7 @@ def mkEncoder (d : Definition) : Except InitError (EncoderModel Float) :=
     definitions reaching the driver were already accepted by the real constructor or are reported
     by it as `InvalidRegex`). Order of checks as in the code: special texts must be UTF-8 (both
     regexes), then the encoder, then duplicate special texts. -/
-def Tokenizer.new (d : Definition) : Except InitError (Tokenizer Float) :=
+def Tokenizer.new (d : Definition) : Except InitError (Tokenizer Score) :=
   if !(d.specials.all fun s => validUtf8 s.bytes) then .error .invalidUtf8
   else
     match mkEncoder d with
